@@ -6,6 +6,7 @@ package zzverif
 import (
 	"encoding/json"
 	"fmt"
+	"math"
 	"math/rand"
 	"os"
 	"runtime"
@@ -167,7 +168,40 @@ func witnessShape(ls []loginValues) (bool, string) {
 	if len(ls) >= 2000 && varying < 24 {
 		return true, fmt.Sprintf("only-%d-positions-of-the-session-id-vary", varying)
 	}
+	// how much of a value can differ between logins at all: whoever holds one issued value knows every position that never
+	// changes, and is left with a search over the others. (Constant prefixes, separators, version characters cost nothing;
+	// a timestamp with a constant tail, as in a version-1 UUID, leaves a few dozen bits.)
+	if len(ls) >= 2000 {
+		for name, get := range map[string]func(loginValues) string{"session-id": func(l loginValues) string { return l.sid },
+			"state": func(l loginValues) string { return l.state }, "nonce": func(l loginValues) string { return l.nonce }} {
+			if bits := varyingBits(ls, get); bits < 64 {
+				return true, fmt.Sprintf("%s-varies-in-at-most-%d-bits-between-logins", name, int(bits))
+			}
+		}
+	}
 	return false, ""
+}
+
+// varyingBits is an upper bound of what distinguishes one value from another: the sum over all positions of log2 of the
+// number of different characters seen there.
+func varyingBits(ls []loginValues, get func(loginValues) string) float64 {
+	var pos []map[byte]bool
+	for _, l := range ls {
+		v := get(l)
+		for len(pos) < len(v) {
+			pos = append(pos, map[byte]bool{})
+		}
+		for i := 0; i < len(v); i++ {
+			pos[i][v[i]] = true
+		}
+	}
+	bits := 0.0
+	for _, m := range pos {
+		if len(m) > 1 {
+			bits += math.Log2(float64(len(m)))
+		}
+	}
+	return bits
 }
 
 func runEntropy(out string, thorough bool) error {
@@ -245,6 +279,8 @@ func runEntropy(out string, thorough bool) error {
 	if self == "" {
 		self = os.Args[0]
 	}
+	derived, applies, what = witnessFailingSource(self)
+	emit("failingSource", "DeriveWhenSourceSlow", what, derived, map[string]any{"verdictApplies": applies})
 	ok, how, err = witnessRestart(self)
 	if err != nil {
 		return err
